@@ -3,6 +3,8 @@
 // C09 — the validator never kills the process from a background goroutine and never blocks: the orchestration harness
 // with panicking per-certificate checks (goroutine leak, deadlock and escaped-panic detection of the executor)
 //verif:pkg revocation
+// for the bounded inputs of these harnesses no loop of the code under test runs anywhere near 300 iterations: more is a hang
+//verif:terminates github.com/notaryproject/notation-core-go/ 300
 //verif:include ../C11/orch.go
 //verif:harness H_C17_orch
 package revocation
